@@ -241,6 +241,31 @@ func (vr *variableResolver) String() string {
 	return strings.Join(parts, ".")
 }
 
+// isHashable reports whether v can be used as the key of a map lookup (a
+// slice, map or func - also inside an interface, array or struct - can't; the
+// runtime would panic).
+func isHashable(v reflect.Value) bool {
+	switch v.Kind() {
+	case reflect.Slice, reflect.Map, reflect.Func:
+		return false
+	case reflect.Interface:
+		return v.IsNil() || isHashable(v.Elem())
+	case reflect.Array:
+		for i := 0; i < v.Len(); i++ {
+			if !isHashable(v.Index(i)) {
+				return false
+			}
+		}
+	case reflect.Struct:
+		for i := 0; i < v.NumField(); i++ {
+			if !isHashable(v.Field(i)) {
+				return false
+			}
+		}
+	}
+	return true
+}
+
 // structFieldByName is reflect's Value.FieldByName, except that a field
 // promoted from an embedded pointer which is nil does not exist (instead of
 // making reflect panic).
@@ -393,7 +418,8 @@ func (vr *variableResolver) resolve(ctx *ExecutionContext) (*Value, error) {
 						if sv.IsNil() {
 							return AsValue(nil), nil
 						}
-						if sv.val.Type().AssignableTo(current.Type().Key()) {
+						if sv.val.Type().AssignableTo(current.Type().Key()) && isHashable(sv.val) {
+							// (a slice, map or func can't be a key of any map: no such entry)
 							current = current.MapIndex(sv.val)
 						} else {
 							return AsValue(nil), nil
@@ -491,6 +517,12 @@ func (vr *variableResolver) resolve(ctx *ExecutionContext) (*Value, error) {
 
 				if fnArg != typeOfValuePtr {
 					// Function's argument is not a *pongo2.Value, then we have to check whether input argument is of the same type as the function's argument
+					argType := reflect.TypeOf(pv.Interface())
+					if fnArg.Kind() == reflect.Interface && argType != nil && !argType.AssignableTo(fnArg) {
+						// An interface-typed argument takes whatever implements it (and nil)
+						return nil, fmt.Errorf("function input argument %d of '%s' must implement %s (%T does not)",
+							idx, vr.String(), fnArg.String(), pv.Interface())
+					}
 					if !isVariadic {
 						if fnArg != reflect.TypeOf(pv.Interface()) && fnArg.Kind() != reflect.Interface {
 							return nil, fmt.Errorf("function input argument %d of '%s' must be of type %s or *pongo2.Value (not %T)",
@@ -504,9 +536,9 @@ func (vr *variableResolver) resolve(ctx *ExecutionContext) (*Value, error) {
 					}
 
 					if pv.IsNil() {
-						// Workaround to present an interface nil as reflect.Value
-						var empty any = nil
-						parameters = append(parameters, reflect.ValueOf(&empty).Elem())
+						// nil for an interface-typed argument, or a nil pointer
+						// of the argument's very type
+						parameters = append(parameters, reflect.Zero(fnArg))
 					} else {
 						parameters = append(parameters, reflect.ValueOf(pv.Interface()))
 					}
